@@ -8,7 +8,7 @@ database, with every combination of
     driver mode sqlite3 legacy transaction control (SQLAlchemy's default; ``in_transaction`` is exact)
                 | ``autocommit=False`` (PEP 249 mode of Python 3.12)
 
-runs every sequence of <= 2 (quick) / <= 3 (thorough) *user programs* drawn from
+runs every sequence of <= 2 *user programs* (thorough: also every triple whose middle program is one of MIDDLE) drawn from
 
     idle              connect; close
     commit            write; commit; close
@@ -26,6 +26,11 @@ runs every sequence of <= 2 (quick) / <= 3 (thorough) *user programs* drawn from
     detach            detach(); write; close
     invalidate        write; invalidate(); close
     two_conns         c1 = connect(); c2 = connect(); c2 writes; c2.close(); c1.close()   (pools with room for 2)
+    token_then_iso    execution_options(logging_token=..) then execution_options(isolation_level="AUTOCOMMIT"); write; close
+    iso_then_token    execution_options(isolation_level="READ UNCOMMITTED") then execution_options(logging_token=..); write; close
+    iso_twice         isolation_level="READ UNCOMMITTED" then isolation_level="AUTOCOMMIT" on the same checkout; write; close
+    engine_token_conn_iso   engine.execution_options(logging_token=..).connect(), then isolation_level="AUTOCOMMIT"; write; close
+    engine_iso        engine.execution_options(isolation_level="READ UNCOMMITTED").connect(); write; close
 
 and finally checks out once more.  Thorough adds one injected driver fault (disconnect-class or
 plain error) at every ``rollback`` / ``commit`` / ``close`` call that a program's *release* makes
@@ -49,6 +54,9 @@ it (unless reset-on-return was explicitly disabled, where the statement makes no
 statement -- the pool cannot know about them -- and are not explored.)
 
 Mutations caught (private copy, README rule 6; each produced VIOLATION lines on the quick tier):
+ M7 engine/default.py _set_connection_characteristics: reset finalizer registered only when none is registered yet
+    (first execution_options() call wins) -> O3-isolation-state after token_then_iso / engine_token_conn_iso
+ M8 same spot: finalizers replaced instead of appended (last call wins) -> O3-isolation-state after iso_then_token
  M1 engine/base.py Connection.invalidate: passes soft=True (DBAPI connection not closed)       -> O5-lost-work-published
  M2 pool/base.py _ConnectionRecord.checkin: finalize_callback entries not called               -> O3-isolation-state
  M3 pool/base.py checkout weakref callback: transaction_was_reset=True on the GC path          -> O1-open-transaction
@@ -81,13 +89,15 @@ MODES = ("legacy", "ac_false")
 PROGRAMS = (
     "idle", "commit", "leave_open", "rollback", "savepoint_open", "begin_block_exc", "begin_block", "autocommit_opt",
     "read_uncommitted", "stmt_error", "gc", "gc_autocommit", "raw", "detach", "invalidate", "two_conns",
+    "token_then_iso", "iso_then_token", "iso_twice", "engine_token_conn_iso", "engine_iso",
 )
+MIDDLE = ("idle", "leave_open", "autocommit_opt", "gc", "raw", "invalidate", "iso_then_token", "stmt_error")
 META = dict(
     engine="H+F",
     technique="exhaustive enumeration of sequences of user programs on a real Engine/pool over a ledger proxy of sqlite3; "
     "state of the raw DBAPI connection inspected at every checkout; fault injection at every reset/close driver call",
     design_ref="DESIGN.md §5 C24",
-    level_text="All sequences of <=2 (quick) / <=3 (thorough) of 16 user programs (commit, leave open, rollback, savepoint "
+    level_text="All sequences of <=2 (quick) / <=3 (thorough) of 21 user programs (commit, leave open, rollback, savepoint "
     "left open, begin() blocks, AUTOCOMMIT / READ UNCOMMITTED execution options, failing statement, garbage-collected "
     "Connection, raw_connection() work, detach, invalidate, two connections) x 6 pool classes x 3 reset_on_return "
     "settings x 2 sqlite3 transaction modes; thorough adds one injected driver error at every rollback / commit / close "
@@ -102,8 +112,9 @@ META = dict(
     "sequence in which some earlier program left work open, changed isolation, errored, was collected or invalidated",
     assumptions=["single thread", "programs run one after another (two_conns nests two checkouts)"],
     bounds=dict(
-        quick="all sequences of <=2 of 16 programs x 36 configurations, fault-free",
-        thorough="all sequences of <=3 programs fault-free; all sequences of <=2 programs with 1 fault at every "
+        quick="all sequences of <=2 of 21 programs x 36 configurations, fault-free",
+        thorough="all sequences of <=2 programs and all triples (any, one of 8 middle programs, any) fault-free; all sequences "
+        "of <=2 programs with 1 fault at every "
         "release-time driver call x 36 configurations",
     ),
 )
@@ -210,8 +221,9 @@ class World:
         return self.nmark
 
     # ---- the oracle, run at every checkout
-    def inspect(self, obj, what):
-        """obj: Connection or pool fairy just handed out"""
+    def inspect(self, obj, what, own=()):
+        """obj: Connection or pool fairy just handed out; own: clauses this checkout itself affects (an OptionEngine
+        applies its own options while connecting) and that are therefore judged at the next checkout only"""
         pool, reset, mode = self.cfg
         self.checkouts += 1
         led = self.led
@@ -258,10 +270,10 @@ class World:
         elif o["inside"] != o["pub"]:
             P.append(("O2-uncommitted-writes", "%s: handed-out connection sees %s, other connections see %s"
                       % (what, sorted(o["inside"]), sorted(o["pub"]))))
-        if not self.isolation_unknown and o["flags"] != self.default:
+        if "O3" not in own and not self.isolation_unknown and o["flags"] != self.default:
             P.append(("O3-isolation-state", "%s: (isolation_level, autocommit, read_uncommitted) = %r, engine default %r"
                       % (what, o["flags"], self.default)))
-        if "opts" in o and o["opts"] != self.default_opts:
+        if "O4" not in own and "opts" in o and o["opts"] != self.default_opts:
             P.append(("O4-execution-options", "%s: new Connection has options %r" % (what, o["opts"])))
         if o["pub"] is not None:
             must = {m for m, s in self.status.items() if s == "committed"}
@@ -319,8 +331,17 @@ class World:
             self.release(c1.close)
             del c1, c2
             return
-        conn = eng.connect()
-        self.inspect(conn, prog)
+        if prog == "engine_token_conn_iso":
+            # engine-level logging_token (applied while connecting), then a connection-level isolation level
+            conn = eng.execution_options(logging_token="e").connect()
+            self.inspect(conn, prog, own=("O4",))
+        elif prog == "engine_iso":
+            # isolation level set on an OptionEngine: applied by its engine_connect listener during connect()
+            conn = eng.execution_options(isolation_level="READ UNCOMMITTED").connect()
+            self.inspect(conn, prog, own=("O3", "O4"))
+        else:
+            conn = eng.connect()
+            self.inspect(conn, prog)
         try:
             if prog == "idle":
                 pass
@@ -353,6 +374,23 @@ class World:
                 self.ins(conn, ac_either)
             elif prog == "read_uncommitted":
                 conn = conn.execution_options(isolation_level="READ UNCOMMITTED")
+                self.ins(conn, "open")
+            elif prog == "token_then_iso":
+                conn = conn.execution_options(logging_token="t")
+                conn = conn.execution_options(isolation_level="AUTOCOMMIT")
+                self.ins(conn, ac_either)
+            elif prog == "iso_then_token":
+                conn = conn.execution_options(isolation_level="READ UNCOMMITTED")
+                conn = conn.execution_options(logging_token="t")
+                self.ins(conn, "open")
+            elif prog == "iso_twice":
+                conn = conn.execution_options(isolation_level="READ UNCOMMITTED")
+                conn = conn.execution_options(isolation_level="AUTOCOMMIT")
+                self.ins(conn, ac_either)
+            elif prog == "engine_token_conn_iso":
+                conn = conn.execution_options(isolation_level="AUTOCOMMIT")
+                self.ins(conn, ac_either)
+            elif prog == "engine_iso":
                 self.ins(conn, "open")
             elif prog == "stmt_error":
                 self.ins(conn, "open")
@@ -487,7 +525,10 @@ def run_shard(shard, tier, rec):
     try:
         n = NPROG[tier]
         for k in range(0, n):
-            for rest in itertools.product(PROGRAMS, repeat=k):
+            pools_ = [PROGRAMS] * k
+            if k == 2:
+                pools_ = [MIDDLE, PROGRAMS]  # thorough: first and last program from all 21, the middle one from MIDDLE
+            for rest in itertools.product(*pools_):
                 progs = (first,) + rest
                 w, _ = evaluate(rec, env, cfg, progs, None)
                 if tier == "thorough" and len(progs) <= 2:
